@@ -338,12 +338,15 @@ Section TuckerInit.
   Proof. reflexivity. Qed.
 
   (* a fixed mode of non_negative_tucker_hals: returned factor = |supplied factor|, whatever happens in between *)
-  Theorem ntd_fixed_factor {W} upd stop normf n fixed budget tol (w : W) (fs : list (@matrix F)) s' m :
-    run upd stop normf false NTDHals n fixed budget tol (mkst w (map (abs_mat fabs) fs)) = Ok s' ->
+  Theorem ntd_fixed_factor {W X} upd stop normf pre pre_on post ls_on ls_accept lsf lsw lsx n fixed budget tol (w : W) (x : X)
+      (fs : list (@matrix F)) s' m :
+    run upd stop normf false pre pre_on post ls_on ls_accept lsf lsw lsx NTDHals n fixed budget tol (mkst w (map (abs_mat fabs) fs) x) = Ok s' ->
     In m fixed -> m <> n - 1 -> nth m (facs s') [] = abs_mat fabs (nth m fs []).
   Proof.
     intros Hrun Hin Hne.
-    rewrite (run_fixed_user upd stop normf NTDHals n fixed budget tol _ s' [] m Hrun Hin (fun _ => Hne)).
+    rewrite (run_fixed_user_hooks upd stop normf pre pre_on post ls_on ls_accept lsf lsw lsx NTDHals n fixed budget tol
+               (mkst w (map (abs_mat fabs) fs) x) s' [] m);
+      [| intros H; discriminate | intros H; discriminate | exact Hrun | exact Hin | intros _; exact Hne].
     cbn [facs]. change (@nil (list F)) with (abs_mat fabs []) at 1. apply map_nth.
   Qed.
 End TuckerInit.
